@@ -143,6 +143,7 @@ def _run(args):
 
 def run(ctx, replay=None):
     lib()
+    ctx.notes["reflectors_certified_by_TLC"] = E.check_against_tlc(ctx)
     thorough = ctx.tier == "thorough"
     ctx.assumptions += [
         "inputs have a prescribed condition number (A = U diag(s) V^H, s geometric from 1 to 1/cond, cond <= 1e3), not the library's own generator",
